@@ -145,4 +145,63 @@ def gen_postings(items):
         return DL('FIELD_NORMS_TABLE', t, f'{f} ({len(t)} entries); fieldnorm_to_id = binary_search or insertion point - 1')
     items.append(fieldnorm_table)
 
+    def vint_u32_ladder():
+        # the hand-unrolled u32 encoder used by the indexing-time recorders (stacker write_u32_vint)
+        f = 'common/src/vint.rs'
+        body = _fn_body2(f, 'serialize_vint_u32')
+        env = {}
+        for name, expr in re.findall(r'const\s+((?:START|MASK)_\d)\s*:\s*u64\s*=\s*([^;]+);', body):
+            env[name] = eval_const_expr(expr, env)
+        m = re.search(r'const\s+STOP_BIT\s*:\s*u64\s*=\s*([^;]+);', body)
+        if not m:
+            raise Fail(f'{f}: serialize_vint_u32: local STOP_BIT not found')
+        stop = eval_const_expr(m.group(1), {})
+        for k in range(1, 6):
+            if f'MASK_{k}' not in env or (k > 1 and f'START_{k}' not in env):
+                raise Fail(f'{f}: serialize_vint_u32: START_k / MASK_k constants not found')
+        radix = env['MASK_1'] + 1
+        for k in range(1, 6):
+            if env[f'MASK_{k}'] != env['MASK_1'] * radix ** (k - 1):
+                raise Fail(f'{f}: serialize_vint_u32: MASK_{k} is not MASK_1 << 7(k-1)')
+        flat = re.sub(r'\s+', '', body)
+        def expr_for(n):
+            if n == 1:
+                return 'val|STOP_BIT'
+            parts = ['(val&MASK_1)'] + [f'((val&MASK_{k})<<{k - 1})' for k in range(2, n + 1)]
+            sh = '(8)' if n == 2 else f'(8*{n - 1})'
+            return '|'.join(parts) + f'|(STOP_BIT<<{sh})'
+        ladder = []
+        pos = 0
+        for n in range(1, 5):
+            kw = 'if' if n == 1 else '}elseif'
+            mm = re.compile(re.escape(kw) + r'val(<=|<)(START_\d)\{\(').match(flat, flat.index(kw + 'val', pos))
+            if not mm:
+                raise Fail(f'{f}: serialize_vint_u32: branch {n} of the size ladder not recognised')
+            rest = flat[mm.end():]
+            want = expr_for(n) + f',{n}'
+            if not (rest.startswith(want + ')') or rest.startswith(want + ',)')):
+                raise Fail(f'{f}: serialize_vint_u32: expression of the {n}-byte branch changed')
+            bound = env[mm.group(2)] + (1 if mm.group(1) == '<=' else 0)
+            ladder.append((bound, n))
+            pos = mm.end()
+        tail = flat[flat.index('}else{(', pos) + len('}else{('):]
+        want = expr_for(5) + ',5'
+        if not (tail.startswith(want + ')') or tail.startswith(want + ',)')):
+            raise Fail(f'{f}: serialize_vint_u32: expression of the 5-byte branch changed')
+        if '*buf=res.to_le_bytes();&buf[0..num_bytes]' not in flat:
+            raise Fail(f'{f}: serialize_vint_u32: output is no longer the first num_bytes little-endian bytes')
+        rd = re.sub(r'\s+', '', _fn_body2(f, 'read_u32_vint_no_advance'))
+        ln = re.sub(r'\s+', '', _fn_body2(f, 'vint_len'))
+        if 'result|=u32::from(b&127u8)<<shift;shift+=7;' not in rd or '.take(5)' not in ln or 'ifval>=STOP_BIT{returni+1;}' not in ln:
+            raise Fail(f'{f}: read_u32_vint_no_advance / vint_len outside the recognised shape')
+        rows = ', '.join(f'({b}, {n})' for b, n in ladder)
+        return '\n'.join([
+            f'/-- {f}::serialize_vint_u32: (exclusive upper bound, number of bytes) of each branch of the size ladder, in order (`<=` is translated to bound + 1) -/',
+            f'def VINT32_LADDER : List (Nat × Nat) := [{rows}]',
+            D('VINT32_LAST_BYTES', 5, 'the final else branch'),
+            D('VINT32_RADIX', radix, 'MASK_1 + 1; MASK_k = MASK_1 << 7(k-1) checked by the extractor'),
+            D('VINT32_STOP_BIT', stop, 'local STOP_BIT of serialize_vint_u32'),
+            D('VINT32_MAX_LEN', 5, 'vint_len: .take(5)')])
+    items.append(vint_u32_ladder)
+
     items.append(lambda: 'end Postings')
